@@ -42,6 +42,13 @@ ASSUMPTIONS = ['pathlib joins paths the posix way: the macOS and Windows branche
                'pypyr decides it): the Android branch (jnius / sys.path scan for the app folder; OSError out of init() when there is none) '
                'is outside the judged domain - the monitor gives no verdict on such cases (counted), only model == implementation is '
                'checked on them (without jnius)',
+               'relative values of $XDG_CONFIG_HOME / entries of $XDG_CONFIG_DIRS (cfg/user: read against the working directory, the code '
+               'joins pypyr/config.yaml onto the value as it is) are OUTSIDE the judged domain: the property text leaves the locations to '
+               'pypyr.platform, and the docs (docs/adr/0004-config-files.md: "follow the XDG Base dir spec") point to a spec under which a '
+               'relative value is invalid and to be ignored - neither "such a file is a config file found" nor "it must be ignored" can be '
+               'read off the property. Such environments are generated (with a decoy in ~/.config), the monitor gives no verdict on them '
+               '(counted: relative-xdg:outside-the-judged-domain) and model == implementation is checked: the model mirrors the code as it '
+               'is (relative values are honoured, ~/.config is not consulted when $XDG_CONFIG_HOME is non-blank)',
                'config files decode identically under every default_encoding value in play: '
                'load_yaml opens later files with the *current* default_encoding, which the model does not follow',
                'environment values are ASCII; directory names are clean paths (no trailing/double slash)',
@@ -427,6 +434,37 @@ def env_cases(rng, res, quick):
     return out
 
 
+def relative_xdg_cases(rng, res, quick):
+    """$XDG_CONFIG_HOME / entries of $XDG_CONFIG_DIRS given RELATIVE to the working directory (cfg/user, cfg/site): the code joins
+    `pypyr/config.yaml` onto the value as it is, so open() reads them against the cwd. Whether a relative value "is" a config
+    location is not settled by the property text + docs (docs/adr/0004: "follow the XDG Base Dir spec", which says relative
+    values are invalid and to be ignored): spec['relative_xdg'] - no verdict from the monitor, model == implementation only.
+    A decoy sits in the DEFAULT user location (~/.config), which is not in play when $XDG_CONFIG_HOME is non-blank."""
+    out = []
+    decoy = f'{S}/home/.config/pypyr/config.yaml'
+    shapes = [
+        (['cfg/site', f'{S}/c2'], 'cfg/user'), ([f'{S}/c1', 'cfg/site'], 'cfg/user'), (['cfg/site'], f'{S}/xh'),
+        ([f'{S}/c1', f'{S}/c2'], 'cfg/user'), (['cfg/a', 'cfg/b', f'{S}/c3'], None), (['site'], 'user'), (['cfg/site', 'cfg/site2'], 'cfg/user'),
+        (['../rel-up'], '../rel-home'),
+    ]
+    if quick:
+        shapes = shapes[:4] + rng.sample(shapes[4:], 2)
+    for commons, user in shapes:
+        env = {'HOME': f'{S}/home', 'XDG_CONFIG_DIRS': ':'.join(commons)}
+        if user is not None:
+            env['XDG_CONFIG_HOME'] = user
+        common_files = [f'{c}/pypyr/config.yaml' for c in commons]
+        user_file = f'{user}/pypyr/config.yaml' if user is not None else decoy
+        spec = {'android': False, 'skip': False, 'global': None, 'relative_xdg': True,
+                'order': list(reversed(common_files)) + [user_file, 'pyproject.toml', 'pypyr-config.yaml'], 'ignored': []}
+        for mask in ((0, 1) if quick else (0, 1, 2)):
+            present = [p for i, p in enumerate(spec['order']) if mask == 0 or (i + mask) % 2 == 0 or rng.random() < 0.5]
+            extra = [decoy] if user is not None else []
+            contents = assign(rng, present + extra, res)
+            out.append(build_case(f'relxdg:{"+".join(commons)}|{user}:{mask}', env, dict(spec), contents, rng))
+    return out
+
+
 YAML_SYNTAX = [('unclosed-flow', 'json_indent: [1, 2\n', 'ParserError'), ('nested-colon', 'json_indent: b: c\n', 'ScannerError'),
                ('tab-indent', 'vars:\n\t- 1\n', 'ScannerError'), ('dup-key', 'json_indent: 1\njson_indent: 2\n', 'DuplicateKeyError'),
                ('two-docs', 'json_indent: 1\n---\njson_indent: 2\n', 'ComposerError'), ('at-sign', 'json_indent: @x\n', 'ScannerError'),
@@ -744,6 +782,7 @@ def all_cases(env, res):
     cases = subset_cases(rng, res, False) + subset_cases(rng, res, True)
     cases += malformed_cases(rng, res, env.quick)
     cases += env_cases(rng, res, env.quick)
+    cases += relative_xdg_cases(rng, res, env.quick)
     cases += syntax_cases(rng, res, env.quick) + dictprop_cases(rng, res, env.quick) + platform_cases(rng, res, env.quick)
     hist = history_cases(rng, res, env.quick)
     n_random = env.n(40, max(0, 3000 - len(cases) - 64))
@@ -868,6 +907,10 @@ def judge_init(spec, case_files, base, obs, base_name):
     call* prescribes (skip / global / order / ignored); base: the settings of the object before the call
     (the defaults, for a fresh object); obs: what the object shows afterwards.
     -> None (holds / no opinion) or (detail, signature)."""
+    if spec.get('relative_xdg'):
+        # a relative $XDG_CONFIG_HOME / $XDG_CONFIG_DIRS entry: whether it names a config location at all is not settled by the
+        # property text + docs (see ASSUMPTIONS): no verdict, model == implementation is still checked
+        return None
     if spec.get('android'):
         # $ANDROID_DATA=/data and $ANDROID_ROOT=/system are how pypyr decides it runs ON Android: such an environment
         # declares the platform to be Android, which is outside the judged domain (model == implementation is still checked)
@@ -1050,6 +1093,8 @@ def evaluate(env, res, cases):
         res.count(f"files_loaded:{len(i['loaded'])}")
         if case['spec'].get('android'):
             res.count('android-env:outside-the-judged-domain')
+        if case['spec'].get('relative_xdg'):
+            res.count('relative-xdg:outside-the-judged-domain')
         verdict = judge(case, {**i, 'opened': io['steps'][-1].get('opened')})
         if verdict is not None:
             detail, sig = verdict
